@@ -92,7 +92,7 @@ def run(rep):
         v["subprocess"] = (rep.tier == "thorough" and idx % 9 == 0) or (rep.tier == "quick" and idx % 400 == 7)
         return v
     crop.drive(rep, runs, claims=lambda tag: tag in CLAIMS, variants=variants)
-    crop.parallel_grow_cases(rep, 1 if q else 4)
+    crop.parallel_grow_cases(rep, 2 if q else 6)
 
 
 def replay(rep, saved):
